@@ -11,6 +11,9 @@ pub struct Ctl {
     /// index of the call to fail; negative = disarmed
     pub fail_at: AtomicI64,
     pub sticky: AtomicBool,
+    /// the failing write/append first applies the first half of its buffer (a write that fails
+    /// midway, e.g. for lack of space, leaves a prefix behind)
+    pub partial: AtomicBool,
     pub fired: AtomicBool,
     pub calls: AtomicU64,
     /// kind of every call (only when `log_kinds`)
@@ -33,6 +36,7 @@ impl Ctl {
         Arc::new(Ctl {
             fail_at: AtomicI64::new(-1),
             sticky: AtomicBool::new(false),
+            partial: AtomicBool::new(false),
             fired: AtomicBool::new(false),
             calls: AtomicU64::new(0),
             kinds: Mutex::new(vec![]),
@@ -54,6 +58,7 @@ impl Ctl {
     pub fn disarm(&self) {
         self.fail_at.store(-1, Ordering::SeqCst);
         self.sticky.store(false, Ordering::SeqCst);
+        self.partial.store(false, Ordering::SeqCst);
     }
 
     fn tick(&self, kind: &'static str, what: impl FnOnce() -> String) -> io::Result<()> {
@@ -170,7 +175,12 @@ impl Seek for WFile {
 }
 impl Write for WFile {
     fn write(&mut self, b: &[u8]) -> io::Result<usize> {
-        self.ctl.tick("write", || format!("{} {}B", self.name, b.len()))?;
+        if let Err(e) = self.ctl.tick("write", || format!("{} {}B", self.name, b.len())) {
+            if self.ctl.partial.load(Ordering::SeqCst) && b.len() >= 2 {
+                let _ = self.f.write(&b[..b.len() / 2]);
+            }
+            return Err(e);
+        }
         self.f.write(b)
     }
     fn flush(&mut self) -> io::Result<()> {
@@ -190,7 +200,12 @@ impl ReadonlyRandomAccessFile for WFile {
 }
 impl RandomAccessFile for WFile {
     fn append(&mut self, b: &[u8]) -> io::Result<usize> {
-        self.ctl.tick("append", || format!("{} {}B", self.name, b.len()))?;
+        if let Err(e) = self.ctl.tick("append", || format!("{} {}B", self.name, b.len())) {
+            if self.ctl.partial.load(Ordering::SeqCst) && b.len() >= 2 {
+                let _ = self.f.append(&b[..b.len() / 2]);
+            }
+            return Err(e);
+        }
         self.f.append(b)
     }
 }
